@@ -98,6 +98,7 @@ type Result struct {
 	Sample      any            `json:"sample,omitempty"`
 	Panic       string         `json:"panic,omitempty"`
 	Inconcl     int            `json:"inconclusive,omitempty"`
+	Log         []string       `json:"full_log,omitempty"` // full event log (replay only)
 }
 
 // Trace collects the event log, faults, probes and outcome classes of one run.
@@ -187,6 +188,9 @@ func (t *Trace) Result(seed uint64) *Result {
 		LogHash:     t.LogHash(),
 		States:      st,
 		Sample:      t.sample,
+	}
+	if t.Keep {
+		r.Log = t.Lines
 	}
 	return r
 }
